@@ -34,6 +34,7 @@
 #include <ompl/control/planners/syclop/SyclopEST.h>
 #include <ompl/control/planners/syclop/SyclopRRT.h>
 #include <ompl/control/spaces/RealVectorControlSpace.h>
+#include <ompl/control/spaces/DiscreteControlSpace.h>
 #include <ompl/util/Console.h>
 #include <ompl/util/RandomNumbers.h>
 
@@ -48,7 +49,7 @@ using namespace vf;
 namespace
 {
     const char *PLANNERS[8] = {"RRT", "RRT-intermediate", "SST", "EST", "KPIECE1", "PDST", "SyclopRRT", "SyclopEST"};
-    const char *SYSTEMS[3] = {"point", "car", "dint"};
+    const char *SYSTEMS[4] = {"point", "car", "dint", "pointd"};
     enum
     {
         P_RRT,
@@ -64,7 +65,8 @@ namespace
     {
         S_POINT,
         S_CAR,
-        S_DINT
+        S_DINT,
+        S_POINTD  // first-order point robot steered by a DiscreteControlSpace: control k = one of n headings at constant speed
     };
 
     struct Obst
@@ -94,16 +96,33 @@ namespace
     {
         int kind = 0;
         ob::StateSpacePtr space;
-        std::shared_ptr<oc::RealVectorControlSpace> cspace;
+        std::shared_ptr<oc::ControlSpace> cspace;  // RealVectorControlSpace(2), or DiscreteControlSpace for S_POINTD
         const ob::SO2StateSpace *so2 = nullptr;
         double L = 0.5;          // car wheel base
         double vmax = 1.0;       // dint velocity bound
         bool clampVel = false;   // dint: propagator saturates the velocity
-        double clo[2], chi[2];   // control bounds (harness's record)
+        double clo[2], chi[2];   // control bounds (harness's record); pointd: clo[0] = dlo, chi[0] = dhi, [1] unused (0)
+        int dlo = 0, dhi = 0, dn = 1;  // pointd: discrete control bounds (harness's record) and number of headings
+        double speed = 0;        // pointd: constant speed
         double h = 0.1;          // propagation step size
         mutable PropStats ps;
 
-        unsigned ncomp() const { return kind == S_POINT ? 2 : kind == S_CAR ? 3 : 4; }
+        unsigned ncomp() const { return (kind == S_POINT || kind == S_POINTD) ? 2 : kind == S_CAR ? 3 : 4; }
+        bool discrete() const { return kind == S_POINTD; }
+        // the control as numbers (reports only): real-vector controls (u0, u1); discrete control (k, 0)
+        void cvals(const oc::Control *c, double *u) const
+        {
+            if (discrete())
+            {
+                u[0] = c->as<oc::DiscreteControlSpace::ControlType>()->value;
+                u[1] = 0;
+            }
+            else
+            {
+                const double *v = c->as<oc::RealVectorControlSpace::ControlType>()->values;
+                u[0] = v[0], u[1] = v[1];
+            }
+        }
         void comps(const ob::State *s, double *v) const
         {
             if (kind == S_CAR)
@@ -165,6 +184,18 @@ namespace
         // all inputs are read before the result is written: the library calls this with result == state
         __attribute__((noinline)) void step(const ob::State *st, const oc::Control *c, double dt, ob::State *res) const
         {
+            if (kind == S_POINTD)
+            {
+                // control k = heading 2*pi*(k - dlo)/dn at constant speed (defined for any integer k: a pure function)
+                const int k = c->as<oc::DiscreteControlSpace::ControlType>()->value;
+                const double hd = 2 * M_PI * (double)(k - dlo) / (double)dn;
+                const double *q = st->as<ob::RealVectorStateSpace::StateType>()->values;
+                const double x = q[0], y = q[1];
+                double *r = res->as<ob::RealVectorStateSpace::StateType>()->values;
+                r[0] = x + speed * std::cos(hd) * dt;
+                r[1] = y + speed * std::sin(hd) * dt;
+                return;
+            }
             const double *u = c->as<oc::RealVectorControlSpace::ControlType>()->values;
             const double u0 = u[0], u1 = u[1];
             if (kind == S_POINT)
@@ -448,21 +479,24 @@ namespace
         }
     };
 
-    struct CountingControlSpace : oc::RealVectorControlSpace
+    template <class Base>
+    struct CountingControlSpaceT : Base
     {
         std::shared_ptr<Tracker> tr;
-        using oc::RealVectorControlSpace::RealVectorControlSpace;
+        using Base::Base;
         oc::Control *allocControl() const override
         {
-            oc::Control *c = oc::RealVectorControlSpace::allocControl();
+            oc::Control *c = Base::allocControl();
             if (tr) tr->onAlloc(c);
             return c;
         }
         void freeControl(oc::Control *c) const override
         {
-            if (!tr || tr->onFree(c)) oc::RealVectorControlSpace::freeControl(c);
+            if (!tr || tr->onFree(c)) Base::freeControl(c);
         }
     };
+    using CountingControlSpace = CountingControlSpaceT<oc::RealVectorControlSpace>;
+    using CountingDiscreteControlSpace = CountingControlSpaceT<oc::DiscreteControlSpace>;
 
     // ---- scenario: world, system, query and planner of one case --------------------------------------------------------
     // The generator of C02, cut into stages that draw from the caller's Rng in the original order (world, start/goal
@@ -672,7 +706,22 @@ namespace
             xyb.setHigh(0, w.x0 + w.W);
             xyb.setLow(1, w.y0);
             xyb.setHigh(1, w.y0 + w.H);
-            if (sk == S_POINT)
+            if (sk == S_POINTD)
+            {
+                auto sp = mkSpace<ob::RealVectorStateSpace>(2);
+                sp->setBounds(xyb);
+                sys.space = sp;
+                // non-zero lower bound: a sampler that draws from [0, count-1] leaves [dlo, dhi]
+                sys.dlo = rng.range(-6, 8);
+                if (sys.dlo >= 0) ++sys.dlo;  // -6..-1, 1..9
+                sys.dn = rng.range(4, 12);
+                sys.dhi = sys.dlo + sys.dn - 1;
+                sys.speed = rng.uni(0.3, 2);
+                sys.clo[0] = sys.dlo, sys.chi[0] = sys.dhi;
+                sys.clo[1] = sys.chi[1] = 0;
+                H(sys.dn);
+            }
+            else if (sk == S_POINT)
             {
                 auto sp = mkSpace<ob::RealVectorStateSpace>(2);
                 sp->setBounds(xyb);
@@ -716,25 +765,43 @@ namespace
             H(cscale);
             if (creeping)
             {
-                for (int d = 0; d < 2; ++d)
-                    sys.clo[d] *= cscale, sys.chi[d] *= cscale;
+                if (sk == S_POINTD)
+                    sys.speed *= cscale;
+                else
+                    for (int d = 0; d < 2; ++d)
+                        sys.clo[d] *= cscale, sys.chi[d] *= cscale;
                 note("c02_cases_creeping_system");
             }
             for (int d = 0; d < 2; ++d)
                 H(sys.clo[d]), H(sys.chi[d]);
-            if (ctTr)
+            if (sk == S_POINTD)
             {
-                auto cs = std::make_shared<CountingControlSpace>(sys.space, 2);
-                cs->tr = ctTr;
-                sys.cspace = cs;
+                H(sys.speed);
+                if (ctTr)
+                {
+                    auto cs = std::make_shared<CountingDiscreteControlSpace>(sys.space, sys.dlo, sys.dhi);
+                    cs->tr = ctTr;
+                    sys.cspace = cs;
+                }
+                else
+                    sys.cspace = std::make_shared<oc::DiscreteControlSpace>(sys.space, sys.dlo, sys.dhi);
             }
             else
-                sys.cspace = std::make_shared<oc::RealVectorControlSpace>(sys.space, 2);
             {
+                std::shared_ptr<oc::RealVectorControlSpace> rv;
+                if (ctTr)
+                {
+                    auto cs = std::make_shared<CountingControlSpace>(sys.space, 2);
+                    cs->tr = ctTr;
+                    rv = cs;
+                }
+                else
+                    rv = std::make_shared<oc::RealVectorControlSpace>(sys.space, 2);
                 ob::RealVectorBounds cb(2);
                 for (int d = 0; d < 2; ++d)
                     cb.setLow(d, sys.clo[d]), cb.setHigh(d, sys.chi[d]);
-                sys.cspace->setBounds(cb);
+                rv->setBounds(cb);
+                sys.cspace = rv;
             }
             si = std::make_shared<oc::SpaceInformation>(sys.space, sys.cspace);
             si->setStatePropagator(std::make_shared<Propagator>(si.get(), &sys));
@@ -850,7 +917,7 @@ namespace
                 double r = rng.u01();
                 goalKind = r < 0.5 ? 0 : r < 0.8 ? 1 : 2;
                 // a third of the sampleable disc goals of the car / double integrator carry a condition on the other coordinates
-                if (goalKind == 0 && sk != S_POINT && rng.coin(0.35)) goalKind = 3;
+                if (goalKind == 0 && sk != S_POINT && sk != S_POINTD && rng.coin(0.35)) goalKind = 3;
                 // Syclop needs a sampleable goal to locate the goal region; without one it has to return INVALID_GOAL
                 if (goalKind == 2 && (pl == P_SYRRT || pl == P_SYEST) && !rng.coin(0.25))
                     goalKind = 0;
@@ -1153,7 +1220,22 @@ namespace
                 o.count("controls_below_min_duration");
             if ((unsigned long)n > maxD)
                 o.count("controls_above_max_duration");
-            const double *u = controls[i]->as<oc::RealVectorControlSpace::ControlType>()->values;
+            double u[2];
+            sys.cvals(controls[i], u);
+            if (sys.discrete())
+            {
+                // discrete control space: the recorded value is one of the space's values dlo..dhi (exact, integers)
+                const int k = controls[i]->as<oc::DiscreteControlSpace::ControlType>()->value;
+                o.count("discrete_controls_checked");
+                if (!(k >= sys.dlo && k <= sys.dhi))
+                {
+                    if (!oobViol)
+                        o.viol("control-oob", "", base().u("control_index", i).i("dim", 0).i("value", k)
+                                                      .i("low", sys.dlo).i("high", sys.dhi).i("headings", sys.dn));
+                    oobViol = true;
+                }
+            }
+            else
             for (int d = 0; d < 2; ++d)
             {
                 const double mlo = std::numeric_limits<double>::epsilon() + 4 * ulp(sys.clo[d]);
@@ -1339,6 +1421,17 @@ namespace
     // C02
     // ======================================================================================================================
     void runCaseImpl(Sink &sink, const Args &a, long c, std::string &label);
+    // C03 / C20 keep their three-system numbering (a fourth residue would renumber every case); `--force-sys 3` (manual
+    // runs only, never passed by the driver) runs every C03 / C20 case on the given system instead, e.g. pointd
+    int pickSys(const Args &a, int sk)
+    {
+        const std::string f = a.get("force-sys", "");
+        if (f.empty()) return sk;
+        const int v = atoi(f.c_str());
+        return v >= 0 && v <= S_POINTD ? v : sk;
+    }
+    long c02BaseCases(const Args &a) { return (long)((a.thorough() ? 22000 : 6000) * a.scale); }
+    long c02DiscreteCases(const Args &a) { return (long)((a.thorough() ? 1600 : 400) * a.scale); }
 
     void runCase(Sink &sink, const Args &a, long c)
     {
@@ -1361,8 +1454,22 @@ namespace
         const uint32_t libSeed = (uint32_t)(caseSeed(a, c, 1) % 1000000000ULL + 1);
         ompl::RNG::setSeed(libSeed);
 
-        const int combo = (int)((c + c / 16) % 24);
-        const int pl = combo % 8, sk = combo / 8;
+        // cases 0..c02BaseCases-1: the three real-vector-control systems; the block appended after them (so that the
+        // earlier cases keep their numbers and random streams): the discrete-control point robot, planner rotated by
+        // index/16 so that every shard sees every planner
+        const long nbase = c02BaseCases(a);
+        int pl, sk;
+        if (c < nbase)
+        {
+            const int combo = (int)((c + c / 16) % 24);
+            pl = combo % 8, sk = combo / 8;
+        }
+        else
+        {
+            const long k = c - nbase;
+            pl = (int)((k + k / 16) % 8), sk = S_POINTD;
+            sink.count("c02_cases_discrete_control_system");
+        }
         const std::string P = PLANNERS[pl], S = SYSTEMS[sk];
         label = P + "/" + S;
 
@@ -1601,8 +1708,11 @@ namespace
                                 .num("difference", sol.difference_).arr("world", {w.x0, w.y0, w.W, w.H})
                                 .arr("start_xy", {sx, sy}).arr("goal_xy", {gx, gy})
                                 .arr("control_low", {sys.clo[0], sys.clo[1]}).arr("control_high", {sys.chi[0], sys.chi[1]})
-                                .arr("first_control", {controls[0]->as<oc::RealVectorControlSpace::ControlType>()->values[0],
-                                                       controls[0]->as<oc::RealVectorControlSpace::ControlType>()->values[1]})
+                                .arr("first_control", [&] {
+                                    double fu[2];
+                                    sys.cvals(controls[0], fu);
+                                    return std::vector<double>{fu[0], fu[1]};
+                                }())
                                 .num("first_duration", path->getControlDurations()[0]).arr("last", compVec(sys, path->getStates().back())));
             }
         }
@@ -1867,7 +1977,7 @@ namespace
     void c03Interrupt(Sink &sink, const Args &a, long c, int pl, long block, long combo, int nblocks, int blockSize)
     {
         const std::string P = PLANNERS[pl];
-        const int sk = (int)((pl + combo) % 3);
+        const int sk = pickSys(a, (int)((pl + combo) % 3));
         const uint32_t libSeed = (uint32_t)(caseSeed(a, c, 1) % 1000000000ULL + 1);
         // the scenario belongs to (planner, combo): all blocks of k interrupt the same problem.  Scenarios without a usable
         // query (only invalid start states; Syclop without a sampleable goal) are left to the history part.
@@ -1994,7 +2104,7 @@ namespace
     void c03History(Sink &sink, const Args &a, long c, int pl, long hidx)
     {
         const std::string P = PLANNERS[pl];
-        const int sk = (int)((pl + hidx) % 3);
+        const int sk = pickSys(a, (int)((pl + hidx) % 3));
         const uint32_t libSeed = (uint32_t)(caseSeed(a, c, 1) % 1000000000ULL + 1);
         const uint64_t scenSeed = caseSeed(a, c);
         Rng rng(scenSeed);
@@ -2156,7 +2266,8 @@ namespace
                                         continue;
                                     }
                                     ++edgeControls;
-                                    const double *v = u->as<oc::RealVectorControlSpace::ControlType>()->values;
+                                    double v[2];
+                                    sc.sys.cvals(u, v);
                                     if (!(std::isfinite(v[0]) && std::isfinite(v[1]) && std::isfinite(ec->getDuration())))
                                         sink.count("c03c_plannerdata_nonfinite_edge_controls");
                                 }
@@ -2269,7 +2380,7 @@ namespace
         vf::perturbHeapHistory();   // replica-specific heap history (see common.h)
         const long widx = c / 8;
         const int pl = (int)((c % 8 + widx / 2) % 8);
-        const int sk = (int)(widx % 3);
+        const int sk = pickSys(a, (int)(widx % 3));
         const std::string P = PLANNERS[pl], subj = "control::" + P;
         uint64_t seed = caseSeed(a, c, 1) % 1000000000ULL + 1;
         // seed 0 is special-cased by the library ("cannot be 0, using 1 instead"): still one fixed stream in every process
@@ -2332,7 +2443,7 @@ int main(int argc, char **argv)
     void (*fn)(Sink &, const Args &, long) = nullptr;
     if (a.prop == "C02")
     {
-        total = (long)((a.thorough() ? 22000 : 6000) * a.scale);
+        total = c02BaseCases(a) + c02DiscreteCases(a);
         fn = runCase;
     }
     else if (a.prop == "C03")
@@ -2368,6 +2479,7 @@ int main(int argc, char **argv)
             snprintf(sc, sizeof sc, "%.17g", a.scale);
             std::string call = std::string(exe) + " --prop C20 --seed " + std::to_string(a.seed) + " --tier " + a.tier + " --scale " + sc +
                                " --only-case " + std::to_string(c) + " --out " + a.out + ".child";
+            if (!a.get("force-sys", "").empty()) call += " --force-sys " + std::to_string(atoi(a.get("force-sys").c_str()));
             int rc = system(call.c_str());
             // merge the child's records (fingerprints, violations, counters)
             FILE *cf = fopen((a.out + ".child").c_str(), "r");
